@@ -1,8 +1,8 @@
-CONSTANTS CfgNames = {"share", "raw"}
+CONSTANTS CfgNames = {"both", "twin", "two"}
  OpTypes = {"start", "reload", "stop"}
  MaxOps = 3
  MaxWrites = 3
- MaxConc = 1
+ MaxConc = 2
  CapUnit = 1
  GRACE = FALSE
  EAGER_RAW = FALSE
